@@ -1689,6 +1689,15 @@ func (ex *Exec) valEq(st *State, a, b Val, t types.Type) *Term {
 			}
 			return ex.valEq(st, x.Payload, y.Payload, x.Conc)
 		}
+		if x.Sym != nil && y.Sym != nil {
+			// two interface values of unknown content (err == rlp.ErrEmptyInput): the same value is equal to itself;
+			// otherwise equal exactly when the dynamic types and the ghost attribute "identity" agree (a per-value
+			// integer nothing else constrains: distinct sentinel values may or may not be the one returned)
+			if x.Sym == y.Sym {
+				return True
+			}
+			return And(Eq(x.Kind, y.Kind), Eq(ex.ifaceGhost(st, x, "identity"), ex.ifaceGhost(st, y, "identity")))
+		}
 	case SliceV:
 		y := b.(SliceV)
 		if y.Region == nil {
